@@ -125,6 +125,28 @@ func AnalyzeLocks(fn *ssa.Function) *FuncLocks {
 		}
 		kind, class, base := LockOp(c)
 		if kind == "" || class == "" {
+			// a helper that returns with a lock held (lock wrapper): all its returns hold it and it defers no unlock
+			if _, isDefer := c.(*ssa.Defer); !isDefer {
+				if g := c.Common().StaticCallee(); g != nil && g != fn {
+					for _, h := range returnHeld(g) {
+						nb := h.Base
+						if nb != nil {
+							if pr, ok := rootOf(nb).(*ssa.Parameter); ok && pr.Parent() == g {
+								nb = nil
+								for i, q := range g.Params {
+									if q == pr && i < len(c.Common().Args) {
+										nb = c.Common().Args[i]
+									}
+								}
+							}
+						}
+						st = st.clone()
+						nh := Held{h.Mode, h.Class, nb}
+						st[hkey(nh)] = nh
+						fl.Acquires[h.Class] = true
+					}
+				}
+			}
 			return st
 		}
 		_, isDefer := c.(*ssa.Defer)
@@ -639,5 +661,60 @@ func LockLeaks(fn *ssa.Function) []LockLeak {
 			out = append(out, LockLeak{c, class, tr})
 		}
 	}
+	return out
+}
+
+var returnHeldCache = map[*ssa.Function][]Held{}
+var returnHeldBusy = map[*ssa.Function]bool{}
+
+// returnHeld lists the locks that g holds at every one of its returns and does not release by a deferred unlock:
+// a caller of g continues with these locks held (lock-wrapper helpers such as "lock, refresh if needed, return").
+func returnHeld(g *ssa.Function) []Held {
+	if g == nil || g.Blocks == nil || g.Pkg == nil || !strings.HasPrefix(g.Pkg.Pkg.Path(), Module) {
+		return nil
+	}
+	if r, ok := returnHeldCache[g]; ok {
+		return r
+	}
+	if returnHeldBusy[g] {
+		return nil
+	}
+	returnHeldBusy[g] = true
+	defer delete(returnHeldBusy, g)
+	fl := AnalyzeLocks(g)
+	deferred := map[string]bool{}
+	for _, b := range g.Blocks {
+		for _, in := range b.Instrs {
+			if d, ok := in.(*ssa.Defer); ok {
+				if kind, class, _ := LockOp(d); (kind == "unlock" || kind == "runlock") && class != "" {
+					deferred[class] = true
+				}
+			}
+		}
+	}
+	var acc lockState
+	for _, b := range g.Blocks {
+		if len(b.Instrs) == 0 || b == g.Recover {
+			continue
+		}
+		ret, ok := b.Instrs[len(b.Instrs)-1].(*ssa.Return)
+		if !ok {
+			continue
+		}
+		st := fl.before[ret]
+		if acc == nil {
+			acc = st.clone()
+		} else {
+			acc = intersect(acc, st)
+		}
+	}
+	var out []Held
+	for _, h := range acc {
+		if !deferred[h.Class] {
+			out = append(out, h)
+		}
+	}
+	sort.Slice(out, func(i, j int) bool { return hkey(out[i]) < hkey(out[j]) })
+	returnHeldCache[g] = out
 	return out
 }
